@@ -38,6 +38,14 @@ func callRead(r *mon.Run, id string, x []byte) implResult {
 	if callNo%3 == 0 {
 		src = bytes.NewBuffer(mem)
 	}
+	if callNo%7 == 5 {
+		// the input starts somewhere inside a seekable source (a container file, a bundle after an integrity block): Read begins where the reader stands
+		prefix := append([]byte("\x86\x48\xf0\x9f\x8c\x90\xf0\x9f\x93\xa6 not the bundle "), mem[:len(mem)/3]...)
+		mem = append(prefix[:len(prefix):len(prefix)], mem...)
+		rd := bytes.NewReader(mem)
+		rd.Seek(int64(len(prefix)), io.SeekStart)
+		src = rd
+	}
 	res.panicked, res.pv = r.Call(id, x, func() { res.b, res.err = bundle.Read(src) })
 	for i := range mem {
 		mem[i] = 0xCC
